@@ -89,11 +89,18 @@ def main():
                 head = open(srcf).read(400)
                 m = re.search(r"^package (\w+)", head, re.M)
                 dest_dir = None
-                hint = re.search(r"cp\s+\S*" + re.escape(fn) + r"\s+(\S+)", run_txt)
+                rel0 = os.path.relpath(dp, demo)
+                if rel0 != ".":
+                    dest_dir = rel0
+                hint = None if dest_dir else re.search(r"cp\s+\S*" + re.escape(fn) + r"\s+(\S+)", run_txt)
                 if hint:
                     dest_dir = hint.group(1).replace("/tmp/seed/%s/" % pid, "").strip("/")
                     if dest_dir.endswith(".go"):
                         dest_dir = os.path.dirname(dest_dir)
+                if dest_dir is None:
+                    hint = re.search(re.escape(fn) + r"\s+to\s+((?:[\w.-]+/)+)" + re.escape(fn), run_txt)
+                    if hint:
+                        dest_dir = hint.group(1).strip("/")
                 if dest_dir is None:
                     hint = re.search(r"((?:[\w.-]+/)+)" + re.escape(fn), run_txt.replace(".seed/demo/", ""))
                     if hint:
